@@ -671,13 +671,29 @@ func cmdReplay(args []string) int {
 		fmt.Fprintln(os.Stderr, err)
 		return 2
 	}
+	if rf.Harness == "structural" {
+		// footprint / shape findings have no input model: replaying means
+		// re-running the analysis of that property on the current tree
+		fmt.Printf("structural finding: %s\n", rf.Detail)
+		return cmdCheck([]string{"-prop", rf.Property, "-tier", "quick"})
+	}
 	L, err := Load([]string{rf.Dir})
 	if err != nil {
 		fmt.Fprintln(os.Stderr, err)
 		return 2
 	}
 	defer L.Close()
-	res, out, err := L.RunNative(rf.Dir, []string{args[0]}, false)
+	race := len(rf.Failed) > 0 && rf.Failed[0] == "norace"
+	res, out, err := L.RunNative(rf.Dir, []string{args[0]}, race)
+	if race {
+		if strings.Contains(out, "DATA RACE") {
+			fmt.Printf("harness=%s params=%v: go test -race reports a data race\n", rf.Harness, rf.Params)
+			fmt.Printf("VIOLATION property=%s replay=%s\n", rf.Property, args[0])
+			return 1
+		}
+		fmt.Printf("harness=%s params=%v: no data race reported\n", rf.Harness, rf.Params)
+		return 0
+	}
 	if err != nil {
 		fmt.Println(out)
 		fmt.Fprintln(os.Stderr, err)
